@@ -89,6 +89,13 @@ func argKeyword(path string) string {
 	return kws[len(path)%len(kws)]
 }
 
+// c16ProfileAfterRepeatedKey puts the string as a key AFTER a key that is written twice (YAML libraries differ in
+// what they make of a repeated key; the keys that follow are keys of the map all the same)
+func c16ProfileAfterRepeatedKey(path string) string {
+	return "profile: c16\nprefixes:\n  ex: \"" + m.NS + "\"\nviolation:\n- v\nvalidations:\n  v:\n    targetClass: ex.Test\n    propertyConstraints:\n" +
+		"      ex.dup:\n        minCount: 0\n      ex.dup:\n        minCount: 0\n      " + m.DoubleQuote(path) + ":\n        minCount: 1\n"
+}
+
 func decideC16Compile(c c16Case) ev.Verdict {
 	verdict, _ := m.RefParsePath(c.Text)
 	if verdict == m.Unspecified {
@@ -98,6 +105,9 @@ func decideC16Compile(c c16Case) ev.Verdict {
 	text := c16Profile(c.Text, asArg)
 	if err := yamlKeyRoundTrip(text, c.Text, asArg); err != nil {
 		return ev.Verdict{Discard: true, Detail: err.Error()}
+	}
+	if c.Via == "compile-after-repeated-key" {
+		text = c16ProfileAfterRepeatedKey(c.Text)
 	}
 	_, cc := compileProfile(text)
 	accepted := !cc.failed() // a panic counts as rejected here (C17 owns "does not panic")
@@ -280,8 +290,11 @@ func genC16Over(t *rapid.T, tokens []string) c16Case {
 		s = strings.Join(toks, "")
 	}
 	via := "compile"
-	if rapid.IntRange(0, 2).Draw(t, "asArg") == 0 {
+	switch rapid.IntRange(0, 5).Draw(t, "asArg") {
+	case 0, 1:
 		via = "compile-argument"
+	case 2:
+		via = "compile-after-repeated-key"
 	}
 	return c16Case{Text: s, Via: via, Origin: fmt.Sprintf("%q + %d edits", origin, k)}
 }
